@@ -570,28 +570,31 @@ pub fn format_block(ctx: &Context, block: &Block, shape: Shape) -> Block {
                     // We want to keep any old comments on the semicolon token, otherwise we will lose it
                     // Move the comments to the end of the stmt, but before the newline token
                     // TODO: this is a bit of a hack - we should probably move newline appending to this function
-                    let trivia = trivia_util::get_stmt_trailing_trivia(stmt.to_owned())
+                    let trivia: Vec<Token> = trivia_util::get_stmt_trailing_trivia(stmt.to_owned())
                         .1
                         .iter()
                         .rev()
                         .skip(1) // Remove the newline at the end
                         .rev()
                         .cloned()
-                        .chain(
-                            semi.leading_trivia()
-                                .chain(semi.trailing_trivia())
-                                .filter(|token| trivia_util::trivia_is_comment(token))
-                                .flat_map(|x| {
-                                    // Prepend a single space beforehand
-                                    // The comment itself is formatted like any other (trailing whitespace, line endings)
-                                    vec![
-                                        Token::new(TokenType::spaces(1)),
-                                        format_token(&ctx, x, FormatTokenType::Token, shape).0,
-                                    ]
-                                }),
-                        )
-                        .chain(std::iter::once(create_newline_trivia(&ctx)))
                         .collect();
+                    let semicolon_comments: Vec<Token> = semi
+                        .leading_trivia()
+                        .chain(semi.trailing_trivia())
+                        .filter(|token| trivia_util::trivia_is_comment(token))
+                        .flat_map(|x| {
+                            // Prepend a single space beforehand
+                            // The comment itself is formatted like any other (trailing whitespace, line endings)
+                            vec![
+                                Token::new(TokenType::spaces(1)),
+                                format_token(&ctx, x, FormatTokenType::Token, shape).0,
+                            ]
+                        })
+                        .collect();
+                    // A comment of the semicolon must not end up behind a single line comment of the statement
+                    let mut trivia =
+                        trivia_util::join_trailing_trivia(&ctx, shape, trivia, semicolon_comments);
+                    trivia.push(create_newline_trivia(&ctx));
 
                     stmt = stmt.update_trailing_trivia(FormatTriviaType::Replace(trivia));
 
@@ -627,28 +630,31 @@ pub fn format_block(ctx: &Context, block: &Block, shape: Shape) -> Block {
                 Some(semi) => {
                     // Append semicolon trailing trivia to the end, but before the newline
                     // TODO: this is a bit of a hack - we should probably move newline appending to this function
-                    let trivia = last_stmt
+                    let trivia: Vec<Token> = last_stmt
                         .trailing_trivia()
                         .iter()
                         .rev()
                         .skip(1) // Remove the newline at the end
                         .rev()
                         .cloned()
-                        .chain(
-                            semi.leading_trivia()
-                                .chain(semi.trailing_trivia())
-                                .filter(|token| trivia_util::trivia_is_comment(token))
-                                .flat_map(|x| {
-                                    // Prepend a single space beforehand
-                                    // The comment itself is formatted like any other (trailing whitespace, line endings)
-                                    vec![
-                                        Token::new(TokenType::spaces(1)),
-                                        format_token(&ctx, x, FormatTokenType::Token, shape).0,
-                                    ]
-                                }),
-                        )
-                        .chain(std::iter::once(create_newline_trivia(&ctx)))
                         .collect();
+                    let semicolon_comments: Vec<Token> = semi
+                        .leading_trivia()
+                        .chain(semi.trailing_trivia())
+                        .filter(|token| trivia_util::trivia_is_comment(token))
+                        .flat_map(|x| {
+                            // Prepend a single space beforehand
+                            // The comment itself is formatted like any other (trailing whitespace, line endings)
+                            vec![
+                                Token::new(TokenType::spaces(1)),
+                                format_token(&ctx, x, FormatTokenType::Token, shape).0,
+                            ]
+                        })
+                        .collect();
+                    // A comment of the semicolon must not end up behind a single line comment of the statement
+                    let mut trivia =
+                        trivia_util::join_trailing_trivia(&ctx, shape, trivia, semicolon_comments);
+                    trivia.push(create_newline_trivia(&ctx));
 
                     last_stmt = last_stmt.update_trailing_trivia(FormatTriviaType::Replace(trivia));
 
